@@ -48,10 +48,9 @@ macro_rules! vcheck {
 /// `assume`-like filter: leave the check when the pool octets are outside the shape.
 #[macro_export]
 macro_rules! vskip {
-    ($opt:expr) => {
-        match $opt {
-            Some(x) => x,
-            None => return $crate::util::Outcome::Skip,
+    ($valid:expr) => {
+        if !($valid) {
+            return $crate::util::Outcome::Skip;
         }
     };
 }
@@ -562,30 +561,27 @@ pub fn wirebig_from_tpl(t: &Tpl, v: &[u8]) -> WireBig {
     WireBig { w, n }
 }
 
-/// Copy an encoding into a fresh wire buffer.  Returns None if it does not have length `n`.
-pub fn wire_from_enc(enc: &[u8], n: usize) -> Option<Wire> {
-    if enc.len() != n || n > WMAX {
-        return None;
-    }
+/// Copy the first `n` octets of an encoding into a fresh wire buffer (caller has checked
+/// `enc.len() == n <= WMAX`).  NB: returns the struct itself, never an `Option`/`Result` of it --
+/// moving a value out of an enum goes through a union in Kani's encoding and CBMC then loses the
+/// constants stored in it.
+pub fn wire_from_enc(enc: &[u8], n: usize) -> Wire {
     let mut w = [0u8; WMAX];
     let mut i = 0;
     while i < n {
         w[i] = enc[i];
         i += 1;
     }
-    Some(Wire { w, n })
+    Wire { w, n }
 }
-pub fn wirebig_from_enc(enc: &[u8], n: usize) -> Option<WireBig> {
-    if enc.len() != n || n > WBIG {
-        return None;
-    }
+pub fn wirebig_from_enc(enc: &[u8], n: usize) -> WireBig {
     let mut w = [0u8; WBIG];
     let mut i = 0;
     while i < n {
         w[i] = enc[i];
         i += 1;
     }
-    Some(WireBig { w, n })
+    WireBig { w, n }
 }
 
 /// Check that every pinned octet has the value the shape dictates, then overwrite it with that
